@@ -28,7 +28,7 @@ import (
 
 func init() {
 	mon.RegisterCfg("C19", mon.Config{
-		Rule: "A: lookup lists from gen/otl restricted to what the language has syntax for (GSUB 1-6, GPOS 1-4, the 8 subsets of -marks/-ligs/-base, || alternatives where the syntax has them) are explained (ExplainGsub/ExplainGpos) and parsed back over fonts with names+cmap, names only, cmap only; each lookup alone and the whole list must come back equal (single substitutions compared as maps). B: descriptions generated from templates with every glyph notation (names, integers, quoted strings via the cmap incl. escapes, ranges, bracketed sets, classes, nested actions, flags, comments) are compared with the result of an independent mini-evaluator. C: arbitrary text (random bytes/runes, token soups, every single-token deletion/duplication/replacement of valid descriptions, unterminated strings, unmapped characters at every string position, very long lines) under GOMAXPROCS 1/2/4/16 with the race detector: Parse must return lookups or an error starting with a line number that exists in the input, must not panic in any goroutine (a panic outside the caller kills the worker and is attributed by the driver), must return before the hard bound, and must leave no goroutine with a frame in opentype/gtab/builder behind (census after every call, polling up to 2 s). distinct = distinct descriptions (hash)",
+		Rule: "A: lookup lists from gen/otl restricted to what the language has syntax for (GSUB 1-6, GPOS 1-4, the 8 subsets of -marks/-ligs/-base, || alternatives where the syntax has them) are explained (ExplainGsub/ExplainGpos) and parsed back over fonts with names+cmap, names only, cmap only; each lookup alone and the whole list must come back equal (single substitutions compared as maps). B: descriptions generated from templates with every glyph notation (names, integers, quoted strings via the cmap incl. escapes, ranges, bracketed sets, classes, nested actions, flags, comments) are compared with the result of an independent mini-evaluator. C: arbitrary text (random bytes/runes, token soups, every single-token deletion/duplication/replacement of valid descriptions, unterminated strings, unmapped characters at every string position, very long lines) under GOMAXPROCS 1/2/4/16 with the race detector: Parse must return lookups or an error starting with a line number that exists in the input, must not panic in any goroutine (a panic outside the caller kills the worker and is attributed by the driver), must return before the hard bound, and must leave no goroutine with a frame in opentype/gtab/builder behind (census after every call, polling up to 2 s). distinct = distinct descriptions (hash); stratum roundtrip-font-changed: the same *sfnt.Font is described again after in-place changes (cmap permuted or removed, glyphs renamed, names removed) and the round trip must hold with the labels the font has now",
 		Assumptions: []string{
 			"expressible fragment: glyph names are lexable identifiers that are not keywords of the language; cmap characters are printable (a separate class probes non-printable ones); value records are nil or have a non-zero x/y/dx; alternates are sets; classes are contiguous and non-empty; mark classes 0..k-1 are all in use",
 			"a line number is a number between 1 and the number of lines of the input (+1 for the position after a final newline)",
@@ -652,6 +652,83 @@ func runC19(c *mon.Ctx) {
 		}
 	})
 
+	// the same *sfnt.Font value described again after it was changed in
+	// place (a new character map installed, the map removed, glyphs renamed):
+	// every description must be written in the labels the font has now
+	c.Stratum("roundtrip-font-changed", c.N(400, 12000), func(k *mon.Case) {
+		r := k.Rng
+		tp := c19types[k.Index%len(c19types)]
+		n := 6 + r.IntN(30)
+		ft := c19makeFont(r, n, c19both, false)
+		o := otl.Opts{DSL: true, MaxGID: n - 1, NumLookups: 1, Size: otl.Tiny}
+		ll := gtab.LookupList{otl.Lookup(r, tp.tt, tp.lt, o)}
+		if _, ok := c19roundTrip(k, ft, tp.tt, ll, "font-changed:before"); !ok {
+			return
+		}
+		for round := 0; round < 3; round++ {
+			f := ft.f
+			change := []string{"cmap-permuted", "cmap-removed", "glyphs-renamed", "names-removed"}[r.IntN(4)]
+			ol := f.Outlines.(*glyf.Outlines)
+			switch change {
+			case "cmap-permuted", "cmap-removed":
+				if f.CMapTable == nil || change == "cmap-removed" && ol.Names == nil {
+					// restore a map instead (a font needs names or a map)
+					change = "cmap-permuted"
+				}
+				if change == "cmap-removed" {
+					f.CMapTable = nil
+					break
+				}
+				m := cmap.Format4{}
+				perm := r.Perm(len(c19runePool))
+				for g := 1; g < n && g-1 < len(perm); g++ {
+					if r.IntN(6) > 0 {
+						m[uint16(c19runePool[perm[g-1]])] = glyph.ID(g)
+					}
+				}
+				if r.IntN(2) == 0 {
+					f.InstallCMap(m)
+				} else {
+					f.CMapTable = cmap.Table{{PlatformID: 3, EncodingID: 1}: m.Encode(0)}
+				}
+			case "glyphs-renamed", "names-removed":
+				if change == "names-removed" && f.CMapTable == nil {
+					change = "glyphs-renamed"
+				}
+				if change == "names-removed" {
+					ol.Names = nil
+					break
+				}
+				names := make([]string, n)
+				names[0] = ".notdef"
+				perm := r.Perm(len(c19namePool))
+				for i := 1; i < n; i++ {
+					if i-1 < len(perm) {
+						names[i] = c19namePool[perm[i-1]]
+					} else {
+						names[i] = fmt.Sprintf("g%d", i)
+					}
+				}
+				if ol.Names != nil && r.IntN(2) == 0 {
+					copy(ol.Names, names) // the same slice, new content
+				} else {
+					ol.Names = names
+				}
+			}
+			ft.kind = c19both
+			switch {
+			case f.CMapTable == nil:
+				ft.kind = c19namesOnly
+			case ol.Names == nil:
+				ft.kind = c19cmapOnly
+			}
+			if _, ok := c19roundTrip(k, ft, tp.tt, ll, "font-changed:"+change); !ok {
+				return
+			}
+			k.Class("font-changed:" + change)
+		}
+	})
+
 	c19meaning(c)
 	c19totality(c)
 
@@ -665,4 +742,5 @@ func runC19(c *mon.Ctx) {
 		"gomaxprocs:1", "gomaxprocs:2", "gomaxprocs:4", "gomaxprocs:16", "outcome:error", "outcome:lookups")
 	c.Require(req...)
 	c.Require("large:gsub4", "large:gsub2", "large:gsub1", "large:more-than-12-rules")
+	c.Require("font-changed:cmap-permuted", "font-changed:cmap-removed", "font-changed:glyphs-renamed", "font-changed:names-removed")
 }
